@@ -369,11 +369,20 @@ def check(ctx):
     ctx.floor('A9', 15, 'raises on the instantiation slice')
     ctx.floor('A8', 15, 'cache-key components')
     ctx.floor('A20', 1, 'copied DataFrame columns')
+    from ..rules import persist as _ps
+    _ps.check_disk_memos(ctx, [f for f in ctx.prog.all_functions() if f.module.name.startswith('adsg_core.optimization.assign_enc')])
+    ctx.floor('A2d', 2, 'results kept on disk (matrix generator)')
+    # degenerate settings (one connection set): no encoder publishes a one-option variable, pattern encoders that
+    # cannot represent 'nothing to choose' reject such settings (same clauses as C10)
+    from .c10 import publication_guards
+    publication_guards(ctx)
 
 
 from ..selftest import V  # noqa: E402
 
 VARIANTS = [
+    V('partial-enumeration-written-under-full-key', 'optimization/assign_enc/matrix.py',
+      [("        for n_src_conn, n_tgt_conn, exist in self._iter_n_sources_targets():\n            if exist not in tuples:", "        for n_src_conn, n_tgt_conn, exist in self._iter_n_sources_targets(existence=existence):\n            if exist not in tuples:")], key='A2d'),
     V('key-renders-targets-with-str', 'optimization/assign_enc/matrix.py',
       [("tgt_cache_key = ';'.join([repr(t) for t in self.tgt])", "tgt_cache_key = ';'.join([str(t) for t in self.tgt])")], key='node-rendering-covers:tgt'),
     V('key-renders-excluded-objects', 'optimization/assign_enc/matrix.py',
